@@ -127,10 +127,11 @@ func init() {
 		"internal/stringslite.IndexByte": func(fr *frame, a []value) value {
 			return strings.IndexByte(a[0].(string), a[1].(byte))
 		},
-		"strconv.AppendFloat": extStrconvAppendFloat,
-		"strconv.FormatFloat": extStrconvFormatFloat,
-		"strconv.ParseFloat":  extStrconvParseFloat,
-		"strconv.Itoa":        func(fr *frame, a []value) value { return strconv.Itoa(int(fr.i.concretize(a[0], "strconv.Itoa"))) },
+		"strconv.AppendFloat":        extStrconvAppendFloat,
+		"strconv.FormatFloat":        extStrconvFormatFloat,
+		"strconv.ParseFloat":         extStrconvParseFloat,
+		"internal/stringslite.Clone": func(fr *frame, a []value) value { return a[0] }, // strings are immutable values here
+		"strconv.Itoa":               func(fr *frame, a []value) value { return strconv.Itoa(int(fr.i.concretize(a[0], "strconv.Itoa"))) },
 		"unicode/utf8.DecodeRuneInString": func(fr *frame, a []value) value {
 			r, n := utf8.DecodeRuneInString(a[0].(string))
 			return tuple{r, n}
@@ -652,6 +653,17 @@ func extStrconvFormatFloat(fr *frame, a []value) value {
 
 func extStrconvParseFloat(fr *frame, a []value) value {
 	i := fr.i
+	if ss, isSym := a[0].(symstr); isSym && i.ps != nil {
+		// a numeral with symbolic bytes (already classified by the lexer): the
+		// remaining freedom of each byte is enumerated by value picks and the real
+		// strconv code runs on each concrete spelling
+		bs := make([]byte, len(ss))
+		for k, b := range ss {
+			bs[k] = byte(i.concretize(b, "byte of a numeral passed to strconv.ParseFloat"))
+		}
+		a[0] = string(bs)
+		i.noteStub("strconv.ParseFloat: symbolic bytes of the numeral enumerated")
+	}
 	s, ok := a[0].(string)
 	if !ok {
 		panic(unsupported{"strconv.ParseFloat of a symbolic string"})
